@@ -36,7 +36,28 @@ impl Rng {
 }
 
 pub fn install_quiet_panic_hook() {
-    std::panic::set_hook(Box::new(|_| {}));
+    // an unwinding panic in the code under test is caught by `guarded` and recorded as data; one that
+    // cannot unwind (std's unsafe-precondition checks, a panic in a destructor while unwinding) kills
+    // the process: the runner re-runs with CLV_BREADCRUMB to find the failing case (panic messages are then
+    // printed, the last one before std's "non-unwinding panic. aborting." is the fatal one)
+    std::panic::set_hook(Box::new(|info| {
+        if breadcrumb_file().is_some() {
+            eprintln!("panic: {}", info);
+        }
+    }));
+}
+
+/// Breadcrumb mode (env CLV_BREADCRUMB=<file>): the runner re-runs a harness invocation that died from a
+/// signal with this set; the current input vector is then written to <file> before it is evaluated and
+/// every recorded event is flushed at once, so that the failing case can be read off the files.
+pub fn breadcrumb_file() -> Option<&'static str> {
+    static F: std::sync::OnceLock<Option<String>> = std::sync::OnceLock::new();
+    F.get_or_init(|| std::env::var("CLV_BREADCRUMB").ok()).as_deref()
+}
+pub fn breadcrumb(case: &str) {
+    if let Some(f) = breadcrumb_file() {
+        let _ = std::fs::write(f, &case.as_bytes()[..case.len().min(1 << 16)]);
+    }
 }
 
 /// Run `f`, turning a panic into `None` (a panic in the code under test is data).
@@ -128,6 +149,7 @@ pub fn read_vectors(path: &str) -> impl Iterator<Item = Value> {
         if t.is_empty() {
             return None;
         }
+        breadcrumb(t);
         let v: Value = serde_json::from_str(t).unwrap_or_else(|e| tool_error(&format!("vector line: {}: {}", e, &t[..t.len().min(200)])));
         Some(match v {
             Value::String(s) => serde_json::from_str(&s).unwrap_or_else(|e| tool_error(&format!("inner vector: {}", e))),
@@ -155,6 +177,9 @@ impl Out {
         serde_json::to_writer(&mut self.w, &v).unwrap();
         self.w.write_all(b"\n").unwrap();
         self.n += 1;
+        if breadcrumb_file().is_some() {
+            self.w.flush().unwrap();
+        }
     }
     pub fn finish(mut self) -> u64 {
         self.w.flush().unwrap();
